@@ -125,7 +125,8 @@ pub fn parse_expect(i: u8) -> A {
     match i {
         0 => A::doc(vec![A::el("", "r").child(A::text("u")).child(A::el("", "s")).child(A::text("v"))]),
         1 => A::doc(vec![A::el("", "r").attr(XML_NS, "id", "i").child(A::el("", "s").attr(XML_NS, "id", "j"))]),
-        _ => A::doc(vec![A::el(X, "r").decl("p", X).attr(X, "l", "1")]),
+        2 => A::doc(vec![A::el(X, "r").decl("p", X).attr(X, "l", "1")]),
+        _ => A::doc(vec![A::el("", "r").child(A::text("uv\nw\rx"))]),
     }
 }
 pub fn fragment_expect(i: u8) -> A {
